@@ -11,6 +11,8 @@ from sa.source import class_assigns
 from sa.props._lib_d import (call_nodes, calls_with, const_value_is, implied, local_def, path_under, peval,
                              reach_under, self_assigns, slice_parts, succ_of, test_value, value_returned)
 from sa.props._lib_d import must_pass_under as _must_pass_under
+from sa.props._lib_d import MiniVM, VMError, VMRaise, VMStub, _NativeRaise
+from sa.source import AnalysisError
 
 PROPERTY = "C16"
 B = "protocols/basic.py"
@@ -243,45 +245,48 @@ def _line_receiver(ctx):
             back = g.path([n], clears, strict=True, avoid=[cp] + wheads, edge_ok=lambda a_, b_, l: l != "exc")
             ctx.check(back is None, "line/raw-swap-before-callout", ctx.construct(q, call) + " | not after",
                       "_buffer is emptied after the rawDataReceived call-out (data pushed back by setLineMode(extra) is discarded)", witness=g.describe(back))
-    # mixin: pause / resume
-    f2 = ctx.func(B, "_PauseableMixin.resumeProducing")
-    g2 = ctx.cfg(f2)
-    q2 = Q + "_PauseableMixin.resumeProducing"
-    pf = self_assigns(g2, "paused", lambda v: const_value_is(v, lambda x: x is False))
-    kick = call_nodes(g2, "self.dataReceived")
-    w = g2.must_pass([g2.entry], kick)
-    ctx.check(bool(kick) and w is None, "pause/resume-reprocesses-buffer", q2,
-              "resumeProducing() does not re-run dataReceived: data buffered while paused stays undelivered until more arrives", witness=g2.describe(w))
-    ctx.check(bool(pf) and all(g2.must_precede(pf, [k]) is None for k in kick), "pause/resume-clears-flag-first", q2,
-              "paused is not cleared before the buffered data is re-processed (nothing would be delivered)")
-    f3 = ctx.func(B, "_PauseableMixin.pauseProducing")
-    g3 = ctx.cfg(f3)
-    pt = self_assigns(g3, "paused", lambda v: const_value_is(v, lambda x: x is True))
-    ctx.check(bool(pt) and g3.must_pass([g3.entry], pt) is None, "pause/sets-flag", Q + "_PauseableMixin.pauseProducing", "pauseProducing() does not set paused")
-    # mode switches
-    f4 = ctx.func(B, "LineReceiver.setLineMode")
-    g4 = ctx.cfg(f4)
-    q4 = Q + "LineReceiver.setLineMode"
-    ex = f4.args.args[1].arg
-    lm = self_assigns(g4, "line_mode", lambda v: const_value_is(v, bool))
-    feed = [n for n, c in calls_with(g4, "self.dataReceived") if c.args and src(c.args[0]) == ex]
-    w = must_pass_under(g4, {ex: b"x"}, feed)
-    ctx.check(bool(feed) and w is None, "line/set-line-mode-extra", q4, "the extra bytes handed to setLineMode() are not fed back through dataReceived",
-              witness=g4.describe(w))
-    ctx.check(bool(lm) and all(g4.must_precede(lm, [n]) is None for n in feed), "line/set-line-mode-extra", q4 + " | mode first",
-              "line_mode is not switched before the extra bytes are processed")
-    # sendLine in both classes
-    for cls in ("LineReceiver", "LineOnlyReceiver"):
-        fs = ctx.func(B, f"{cls}.sendLine")
-        lp = fs.args.args[1].arg
-        ok = False
-        for c in (x for x in walk_local(fs) if isinstance(x, ast.Call)):
-            if call_name(c) == "self.transport.write" and len(c.args) == 1:
-                a = c.args[0]
-                ok = isinstance(a, ast.BinOp) and isinstance(a.op, ast.Add) and src(a.left) == lp and src(a.right) == "self.delimiter"
-            elif call_name(c) == "self.transport.writeSequence" and len(c.args) == 1 and isinstance(c.args[0], (ast.Tuple, ast.List)):
-                ok = [src(e) for e in c.args[0].elts] == [lp, "self.delimiter"]
-        ctx.check(ok, "line/send-line", Q + f"{cls}.sendLine", "sendLine does not write the line followed by exactly one self.delimiter")
+    with ctx.section("_PauseableMixin"):
+        # mixin: pause / resume
+        f2 = ctx.func(B, "_PauseableMixin.resumeProducing")
+        g2 = ctx.cfg(f2)
+        q2 = Q + "_PauseableMixin.resumeProducing"
+        pf = self_assigns(g2, "paused", lambda v: const_value_is(v, lambda x: x is False))
+        kick = call_nodes(g2, "self.dataReceived")
+        w = g2.must_pass([g2.entry], kick)
+        ctx.check(bool(kick) and w is None, "pause/resume-reprocesses-buffer", q2,
+                  "resumeProducing() does not re-run dataReceived: data buffered while paused stays undelivered until more arrives", witness=g2.describe(w))
+        ctx.check(bool(pf) and all(g2.must_precede(pf, [k]) is None for k in kick), "pause/resume-clears-flag-first", q2,
+                  "paused is not cleared before the buffered data is re-processed (nothing would be delivered)")
+        f3 = ctx.func(B, "_PauseableMixin.pauseProducing")
+        g3 = ctx.cfg(f3)
+        pt = self_assigns(g3, "paused", lambda v: const_value_is(v, lambda x: x is True))
+        ctx.check(bool(pt) and g3.must_pass([g3.entry], pt) is None, "pause/sets-flag", Q + "_PauseableMixin.pauseProducing", "pauseProducing() does not set paused")
+    with ctx.section("LineReceiver.setLineMode"):
+        # mode switches
+        f4 = ctx.func(B, "LineReceiver.setLineMode")
+        g4 = ctx.cfg(f4)
+        q4 = Q + "LineReceiver.setLineMode"
+        ex = f4.args.args[1].arg
+        lm = self_assigns(g4, "line_mode", lambda v: const_value_is(v, bool))
+        feed = [n for n, c in calls_with(g4, "self.dataReceived") if c.args and src(c.args[0]) == ex]
+        w = must_pass_under(g4, {ex: b"x"}, feed)
+        ctx.check(bool(feed) and w is None, "line/set-line-mode-extra", q4, "the extra bytes handed to setLineMode() are not fed back through dataReceived",
+                  witness=g4.describe(w))
+        ctx.check(bool(lm) and all(g4.must_precede(lm, [n]) is None for n in feed), "line/set-line-mode-extra", q4 + " | mode first",
+                  "line_mode is not switched before the extra bytes are processed")
+    with ctx.section("sendLine"):
+        # sendLine in both classes
+        for cls in ("LineReceiver", "LineOnlyReceiver"):
+            fs = ctx.func(B, f"{cls}.sendLine")
+            lp = fs.args.args[1].arg
+            ok = False
+            for c in (x for x in walk_local(fs) if isinstance(x, ast.Call)):
+                if call_name(c) == "self.transport.write" and len(c.args) == 1:
+                    a = c.args[0]
+                    ok = isinstance(a, ast.BinOp) and isinstance(a.op, ast.Add) and src(a.left) == lp and src(a.right) == "self.delimiter"
+                elif call_name(c) == "self.transport.writeSequence" and len(c.args) == 1 and isinstance(c.args[0], (ast.Tuple, ast.List)):
+                    ok = [src(e) for e in c.args[0].elts] == [lp, "self.delimiter"]
+            ctx.check(ok, "line/send-line", Q + f"{cls}.sendLine", "sendLine does not write the line followed by exactly one self.delimiter")
 
 
 def _intn(ctx):
@@ -383,284 +388,505 @@ def _intn(ctx):
                   "when a message is incomplete the unparsed remainder alldata[currentOffset:] is not stored for the next delivery",
                   witness=g.describe(w))
     # sendString
-    fs = ctx.func(B, "IntNStringReceiver.sendString")
-    gs = ctx.cfg(fs)
-    qs = Q + "IntNStringReceiver.sendString"
-    sparam = fs.args.args[1].arg
-    wr = calls_with(gs, "self.transport.write")
-    rz = _raises(gs, "StringTooLongError")
-    ctx.need(wr, "transport.write in sendString")
-    for pl in (1, 2):
-        lim = 2 ** (8 * pl)
-        for n_, fits in ((lim - 1, True), (lim, False)):
-            facts = {f"len({sparam})": n_, "self.prefixLength": pl}
-            c = qs + f" | <{n_} bytes, prefixLength {pl}>"
-            R = reach_under(gs, facts)
-            if fits:
-                w = must_pass_under(gs, facts, [n for n, _ in wr])
-                ctx.check(w is None and not (R & set(rz)), "intn/send-limit", c, "a string whose length fits the prefix is refused", witness=gs.describe(w))
-            else:
-                ctx.check(not (R & {n for n, _ in wr}) and bool(R & set(rz)), "intn/send-limit", c,
-                          "a string whose length does not fit the prefix is sent (the prefix wraps around / struct.error instead of StringTooLongError)")
-    for n, call in wr:
-        a = call.args[0] if call.args else None
-        ok = False
-        if isinstance(a, ast.BinOp) and isinstance(a.op, ast.Add) and src(a.right) == sparam and isinstance(a.left, ast.Call) and call_name(a.left) in ("pack", "struct.pack"):
-            pa = a.left.args
-            ok = len(pa) == 2 and src(pa[0]) == "self.structFormat" and src(pa[1]) == f"len({sparam})"
-        ctx.check(ok, "intn/format-agreement", ctx.construct(qs, call),
-                  "sendString does not write pack(self.structFormat, len(string)) followed by the string (receiver unpacks with self.structFormat)")
-    # concrete classes
-    mod = ctx.mod(B)
-    nsub = 0
-    for cls in mod.classes():
-        if "IntNStringReceiver" not in [getattr(b, "id", getattr(b, "attr", "")) for b in cls.bases]:
-            continue
-        ca = class_assigns(cls)
-        qc = Q + cls.name
-        nsub += 1
-        try:
-            fmt_v = peval(ca["structFormat"], {})
-            pl = peval(ca["prefixLength"], {"structFormat": fmt_v})
-        except (KeyError, NotConst):
-            ctx.violation("intn/prefix-table", qc, "structFormat / prefixLength are not constants of the class")
-            continue
-        ok = isinstance(fmt_v, str) and pl == struct.calcsize(fmt_v)
-        if ok:
+    with ctx.section("IntNStringReceiver.sendString"):
+        fs = ctx.func(B, "IntNStringReceiver.sendString")
+        gs = ctx.cfg(fs)
+        qs = Q + "IntNStringReceiver.sendString"
+        sparam = fs.args.args[1].arg
+        wr = calls_with(gs, "self.transport.write")
+        rz = _raises(gs, "StringTooLongError")
+        ctx.need(wr, "transport.write in sendString")
+        for pl in (1, 2):
+            lim = 2 ** (8 * pl)
+            for n_, fits in ((lim - 1, True), (lim, False)):
+                facts = {f"len({sparam})": n_, "self.prefixLength": pl}
+                c = qs + f" | <{n_} bytes, prefixLength {pl}>"
+                R = reach_under(gs, facts)
+                if fits:
+                    w = must_pass_under(gs, facts, [n for n, _ in wr])
+                    ctx.check(w is None and not (R & set(rz)), "intn/send-limit", c, "a string whose length fits the prefix is refused", witness=gs.describe(w))
+                else:
+                    ctx.check(not (R & {n for n, _ in wr}) and bool(R & set(rz)), "intn/send-limit", c,
+                              "a string whose length does not fit the prefix is sent (the prefix wraps around / struct.error instead of StringTooLongError)")
+        for n, call in wr:
+            a = call.args[0] if call.args else None
+            ok = False
+            if isinstance(a, ast.BinOp) and isinstance(a.op, ast.Add) and src(a.right) == sparam and isinstance(a.left, ast.Call) and call_name(a.left) in ("pack", "struct.pack"):
+                pa = a.left.args
+                ok = len(pa) == 2 and src(pa[0]) == "self.structFormat" and src(pa[1]) == f"len({sparam})"
+            ctx.check(ok, "intn/format-agreement", ctx.construct(qs, call),
+                      "sendString does not write pack(self.structFormat, len(string)) followed by the string (receiver unpacks with self.structFormat)")
+    with ctx.section("IntN concrete classes"):
+        # concrete classes
+        mod = ctx.mod(B)
+        nsub = 0
+        for cls in mod.classes():
+            if "IntNStringReceiver" not in [getattr(b, "id", getattr(b, "attr", "")) for b in cls.bases]:
+                continue
+            ca = class_assigns(cls)
+            qc = Q + cls.name
+            nsub += 1
             try:
-                top = struct.pack(fmt_v, 2 ** (8 * pl) - 1)
-                ok = top == b"\xff" * pl and struct.pack(fmt_v, 1) == b"\x00" * (pl - 1) + b"\x01"
+                fmt_v = peval(ca["structFormat"], {})
+                pl = peval(ca["prefixLength"], {"structFormat": fmt_v})
+            except (KeyError, NotConst):
+                ctx.violation("intn/prefix-table", qc, "structFormat / prefixLength are not constants of the class")
+                continue
+            ok = isinstance(fmt_v, str) and pl == struct.calcsize(fmt_v)
+            if ok:
                 try:
-                    struct.pack(fmt_v, 2 ** (8 * pl))
-                    ok = False
+                    top = struct.pack(fmt_v, 2 ** (8 * pl) - 1)
+                    ok = top == b"\xff" * pl and struct.pack(fmt_v, 1) == b"\x00" * (pl - 1) + b"\x01"
+                    try:
+                        struct.pack(fmt_v, 2 ** (8 * pl))
+                        ok = False
+                    except struct.error:
+                        pass
                 except struct.error:
-                    pass
-            except struct.error:
-                ok = False
-        ctx.check(ok, "intn/prefix-table", qc,
-                  f"structFormat {fmt_v!r} / prefixLength {pl!r}: the prefix must be an unsigned big-endian integer of exactly prefixLength bytes "
-                  "(sendString admits lengths up to 2**(8*prefixLength)-1)")
-    ctx.floor("intn/prefix-table", nsub, 3)
-    fl = ctx.func(B, "IntNStringReceiver.lengthLimitExceeded")
-    ctx.check(any(call_name(c) == "self.transport.loseConnection" for c in walk_local(fl) if isinstance(c, ast.Call)), "intn/limit-closes",
-              Q + "IntNStringReceiver.lengthLimitExceeded", "the default lengthLimitExceeded does not close the connection")
+                    ok = False
+            ctx.check(ok, "intn/prefix-table", qc,
+                      f"structFormat {fmt_v!r} / prefixLength {pl!r}: the prefix must be an unsigned big-endian integer of exactly prefixLength bytes "
+                      "(sendString admits lengths up to 2**(8*prefixLength)-1)")
+        ctx.floor("intn/prefix-table", nsub, 3)
+        fl = ctx.func(B, "IntNStringReceiver.lengthLimitExceeded")
+        ctx.check(any(call_name(c) == "self.transport.loseConnection" for c in walk_local(fl) if isinstance(c, ast.Call)), "intn/limit-closes",
+                  Q + "IntNStringReceiver.lengthLimitExceeded", "the default lengthLimitExceeded does not close the connection")
 
 
 def _netstring(ctx):
     cls = ctx.cls(B, "NetstringReceiver")
     ca = class_assigns(cls)
-    # regexes
-    for name, accept, reject in (
-            ("_LENGTH", [b"0:", b"1:", b"9:x", b"10:", b"99999:", b"123456789:"], [b"00:", b"01:", b"+1:", b"-1:", b" 1:", b"1 :", b":", b"a:", b"1a:", b"1", b"", b"1.0:", b"0x1:"]),
-            ("_LENGTH_PREFIX", [b"0", b"1", b"12", b"99999"], [b"00", b"01", b"1x", b"+1", b" 1", b"1:", b"", b"1 "])):
-        pat = None
-        v = ca.get(name)
-        if isinstance(v, ast.Call) and call_name(v) in ("re.compile", "compile") and v.args and isinstance(v.args[0], ast.Constant):
-            pat = v.args[0].value
-        ctx.need(isinstance(pat, bytes), f"NetstringReceiver.{name} = re.compile(rb'...')")
-        rx = re.compile(pat)
-        bad = []
-        for s_ in accept:
-            m = rx.match(s_)
-            digits = re.match(rb"\d+", s_).group(0)
-            if not m or m.group(1) != digits or (name == "_LENGTH" and (m.end(2) != len(digits) + 1 or m.end(1) != len(digits))):
-                bad.append(("rejects", s_))
-        for s_ in reject:
-            if rx.match(s_):
-                bad.append(("accepts", s_))
-        ctx.check(not bad, "netstring/length-syntax", Q + f"NetstringReceiver.{name}",
-                  f"the length pattern {bad[:3]}: a netstring length is a canonical decimal (no sign, no leading zero) followed by ':'")
-    # _extractLength boundary
-    f = ctx.func(B, "NetstringReceiver._extractLength")
-    g = ctx.cfg(f)
-    q = Q + "NetstringReceiver._extractLength"
-    p = f.args.args[1].arg
-    rz = _raises(g, "NetstringParseError")
-    for L, ok_len in ((M - 1, True), (M, True), (M + 1, False)):
-        facts = {p: str(L).encode(), "self.MAX_LENGTH": M}
-        R = reach_under(g, facts)
-        c = q + f" | <length MAX_LENGTH{L - M:+d}>"
-        if ok_len:
-            ctx.check(not (R & set(rz)) and g.exit in R, "netstring/limit-boundary", c, "a netstring within MAX_LENGTH is refused")
-        else:
-            ctx.check(bool(R & set(rz)) and g.exit not in R, "netstring/limit-boundary", c, "a netstring longer than MAX_LENGTH is accepted")
-    rets = [x for x in walk_local(f) if isinstance(x, ast.Return) and x.value is not None]
-    ctx.check(len(rets) == 1 and test_value(ast.Compare(left=rets[0].value, ops=[ast.Eq()], comparators=[ast.Constant(7)]), {"length": 7, p: b"7"}) is True
-              if rets else False, "netstring/length-value", q, "_extractLength does not return the decimal value of the length field")
-    # digit-count pre-check can never reject a length <= MAX_LENGTH
-    fm = ctx.func(B, "NetstringReceiver._maxLengthSize")
-    rm = [x for x in walk_local(fm) if isinstance(x, ast.Return) and x.value is not None]
-    ctx.need(len(rm) == 1, "single return in _maxLengthSize")
-    fc = ctx.func(B, "NetstringReceiver._checkStringSize")
-    gc = ctx.cfg(fc)
-    pc = fc.args.args[1].arg
-    rzc = _raises(gc, "NetstringParseError")
-    bad = []
-    for mx in (1, 2, 9, 10, 11, 99, 100, 101, 999, 1000, 99999, 100000, 10 ** 9, 12345678):
-        try:
-            size = peval(rm[0].value, {"self.MAX_LENGTH": mx})
-        except NotConst as e:
-            bad.append((mx, f"not evaluable: {e}"))
-            continue
-        R = reach_under(gc, {f"len({pc})": len(str(mx)), "self._maxLengthSize()": size})
-        if R & set(rzc):
-            bad.append((mx, f"_maxLengthSize()={size} rejects a {len(str(mx))}-digit length"))
-    ctx.check(not bad, "netstring/digit-precheck", Q + "NetstringReceiver._checkStringSize",
-              f"the digit-count pre-check refuses a length that is <= MAX_LENGTH: {bad[:3]}")
-    # _payloadComplete / _consumePayload / _extractPayload
-    fp = ctx.func(B, "NetstringReceiver._payloadComplete")
-    rp = [x for x in walk_local(fp) if isinstance(x, ast.Return) and x.value is not None]
-    ctx.need(len(rp) == 1, "single return in _payloadComplete")
-    tbl = []
-    for r_, c_, e_, want in ((4, 3, 7, True), (3, 3, 7, False), (9, 3, 7, True), (0, 7, 7, True), (1, 0, 2, False)):
-        v = test_value(rp[0].value, {"len(self._remainingData)": r_, "self._currentPayloadSize": c_, "self._expectedPayloadSize": e_})
-        if v is not want:
-            tbl.append((r_, c_, e_, v))
-    ctx.check(not tbl, "netstring/payload-complete-boundary", Q + "NetstringReceiver._payloadComplete",
-              f"_payloadComplete is not 'buffered + already consumed >= expected' (remaining, current, expected, result): {tbl[:2]}")
-    fx = ctx.func(B, "NetstringReceiver._extractPayload")
-    gx = ctx.cfg(fx)
-    qx = Q + "NetstringReceiver._extractPayload"
-    wr = calls_with(gx, "self._payload.write")
-    ctx.need(wr, "self._payload.write in _extractPayload")
-    for complete in (True, False):
-        facts = {"self._payloadComplete()": complete, "self._expectedPayloadSize": 10, "self._currentPayloadSize": 3}
-        R = reach_under(gx, facts)
-        here = [(n, c) for n, c in wr if n in R]
-        c0 = qx + (" | <payload completes>" if complete else " | <payload still incomplete>")
-        ctx.check(len(here) == 1, "netstring/payload-split", c0, f"{len(here)} payload writes on this branch (exactly one)")
-        for n, call in here:
-            a = local_def(fx, call.args[0]) if call.args else None
-            rem_assign = [x for x in self_assigns(gx, "_remainingData") if x in R]
-            cur_assign = [x.id for x in gx.nodes if x.kind == "stmt" and x.id in R and isinstance(x.ast, (ast.Assign, ast.AugAssign))
-                          and src(x.ast.targets[0] if isinstance(x.ast, ast.Assign) else x.ast.target) == "self._currentPayloadSize"]
-            if complete:
-                spx = slice_parts(a) if a is not None else None
-                ok = bool(spx) and src(spx[0]) == "self._remainingData" and spx[1] is None and spx[2] is not None
-                width = None
-                if ok:
-                    try:
-                        width = peval(local_def(fx, spx[2]), facts)
-                    except NotConst:
-                        width = None
-                ctx.check(ok and width == 7, "netstring/payload-split", ctx.construct(qx, call),
-                          "when the payload completes, the bytes appended are not exactly the missing 'expected - current' bytes "
-                          "(bytes of the next netstring are swallowed or payload bytes are left behind when the payload arrives in pieces)")
-                ok2 = False
-                for x in rem_assign:
-                    s2 = slice_parts(gx.node(x).ast.value)
-                    if s2 and src(s2[0]) == "self._remainingData" and s2[2] is None and s2[1] is not None and spx and src(s2[1]) == src(spx[2]):
-                        ok2 = True
-                ctx.check(ok2, "netstring/payload-split", ctx.construct(qx, call) + " | rest", "the bytes after the payload are not kept as _remainingData")
-                ok3 = any(isinstance(gx.node(x).ast, ast.Assign) and src(gx.node(x).ast.value) == "self._expectedPayloadSize" for x in cur_assign)
-                ctx.check(ok3, "netstring/payload-split", ctx.construct(qx, call) + " | size", "_currentPayloadSize is not brought to the expected size")
+    with ctx.section("netstring length syntax"):
+        # regexes
+        for name, accept, reject in (
+                ("_LENGTH", [b"0:", b"1:", b"9:x", b"10:", b"99999:", b"123456789:"], [b"00:", b"01:", b"+1:", b"-1:", b" 1:", b"1 :", b":", b"a:", b"1a:", b"1", b"", b"1.0:", b"0x1:"]),
+                ("_LENGTH_PREFIX", [b"0", b"1", b"12", b"99999"], [b"00", b"01", b"1x", b"+1", b" 1", b"1:", b"", b"1 "])):
+            pat = None
+            v = ca.get(name)
+            if isinstance(v, ast.Call) and call_name(v) in ("re.compile", "compile") and v.args and isinstance(v.args[0], ast.Constant):
+                pat = v.args[0].value
+            ctx.need(isinstance(pat, bytes), f"NetstringReceiver.{name} = re.compile(rb'...')")
+            rx = re.compile(pat)
+            bad = []
+            for s_ in accept:
+                m = rx.match(s_)
+                digits = re.match(rb"\d+", s_).group(0)
+                if not m or m.group(1) != digits or (name == "_LENGTH" and (m.end(2) != len(digits) + 1 or m.end(1) != len(digits))):
+                    bad.append(("rejects", s_))
+            for s_ in reject:
+                if rx.match(s_):
+                    bad.append(("accepts", s_))
+            ctx.check(not bad, "netstring/length-syntax", Q + f"NetstringReceiver.{name}",
+                      f"the length pattern {bad[:3]}: a netstring length is a canonical decimal (no sign, no leading zero) followed by ':'")
+    with ctx.section("netstring _extractLength"):
+        # _extractLength boundary
+        f = ctx.func(B, "NetstringReceiver._extractLength")
+        g = ctx.cfg(f)
+        q = Q + "NetstringReceiver._extractLength"
+        p = f.args.args[1].arg
+        rz = _raises(g, "NetstringParseError")
+        for L, ok_len in ((M - 1, True), (M, True), (M + 1, False)):
+            facts = {p: str(L).encode(), "self.MAX_LENGTH": M}
+            R = reach_under(g, facts)
+            c = q + f" | <length MAX_LENGTH{L - M:+d}>"
+            if ok_len:
+                ctx.check(not (R & set(rz)) and g.exit in R, "netstring/limit-boundary", c, "a netstring within MAX_LENGTH is refused")
             else:
-                ctx.check(a is not None and src(a) == "self._remainingData", "netstring/payload-split", ctx.construct(qx, call),
-                          "an incomplete payload segment is not appended whole")
-                ok2 = any(const_value_is(gx.node(x).ast.value, lambda v: v == b"") for x in rem_assign)
-                ok3 = any(isinstance(gx.node(x).ast, ast.AugAssign) and isinstance(gx.node(x).ast.op, ast.Add) and src(gx.node(x).ast.value) == "len(self._remainingData)"
-                          and g_before(gx, x, rem_assign) for x in cur_assign)
-                ctx.check(ok2 and ok3, "netstring/payload-split", ctx.construct(qx, call) + " | bookkeeping",
-                          "after buffering an incomplete segment the size counter is not advanced by its length before _remainingData is emptied")
-    fcp = ctx.func(B, "NetstringReceiver._consumePayload")
-    gcp = ctx.cfg(fcp)
-    qcp = Q + "NetstringReceiver._consumePayload"
-    ext = call_nodes(gcp, "self._extractPayload")
-    comma = call_nodes(gcp, "self._checkForTrailingComma")
-    proc = call_nodes(gcp, "self._processPayload")
-    inc = _raises(gcp, "IncompleteNetstring")
-    ctx.need(ext and proc, "_extractPayload / _processPayload calls in _consumePayload")
-    after = [s for e in ext for s in succ_of(gcp, e, None)]
-    facts = {"self._currentPayloadSize": 5, "self._expectedPayloadSize": 5}
-    w = must_pass_under(gcp, facts, proc, srcs=after)
-    ctx.check(w is None, "netstring/complete-message-delivered", qcp + " | <payload complete>",
-              "a netstring whose last byte (the comma) has arrived is not delivered until more data comes", witness=gcp.describe(w))
-    st_reset = self_assigns(gcp, "_state", lambda v: src(v) == "self._PARSING_LENGTH")
-    w = must_pass_under(gcp, facts, st_reset, srcs=after)
-    ctx.check(bool(st_reset) and w is None, "netstring/state-reset", qcp + " | <payload complete>",
-              "the parser does not return to the length state after a complete payload", witness=gcp.describe(w))
-    R = reach_under(gcp, {"self._currentPayloadSize": 4, "self._expectedPayloadSize": 5}, srcs=after)
-    ctx.check(not (R & set(proc)) and bool(R & set(inc)), "netstring/incomplete-message-waits", qcp + " | <one byte missing>",
-              "a netstring is delivered (or rejected) before its last byte arrived")
-    for p_ in proc:
-        w = gcp.must_precede(comma, [p_])
-        ctx.check(bool(comma) and w is None, "netstring/comma-checked", ctx.construct(qcp, gcp.node(p_).ast),
-                  "the payload is delivered without checking the terminating comma", witness=gcp.describe(w))
-    ftc = ctx.func(B, "NetstringReceiver._checkForTrailingComma")
-    gtc = ctx.cfg(ftc)
-    rzt = _raises(gtc, "NetstringParseError")
-    R1 = reach_under(gtc, {"self._payload.getvalue()": b"ab,"})
-    R2 = reach_under(gtc, {"self._payload.getvalue()": b"abc"})
-    ctx.check(not (R1 & set(rzt)) and bool(R2 & set(rzt)) and gtc.exit not in R2, "netstring/comma-checked", Q + "NetstringReceiver._checkForTrailingComma",
-              "the byte after the payload is not required to be exactly ','")
-    fpp = ctx.func(B, "NetstringReceiver._processPayload")
-    okp = False
-    for c in (x for x in walk_local(fpp) if isinstance(x, ast.Call) and call_name(x) == "self.stringReceived" and x.args):
-        try:
-            okp = peval(c.args[0], {"self._payload.getvalue()": b"ab,"}) == b"ab"
-        except NotConst:
-            okp = False
-    ctx.check(okp, "netstring/payload-without-comma", Q + "NetstringReceiver._processPayload", "stringReceived does not get the payload without the trailing comma")
-    fpl = ctx.func(B, "NetstringReceiver._processLength")
-    okl = any(isinstance(x, ast.Assign) and src(x.targets[0]) == "self._expectedPayloadSize" and isinstance(x.value, ast.BinOp) and isinstance(x.value.op, ast.Add)
-              and ((call_name(x.value.left) == "self._extractLength" and const_value_is(x.value.right, lambda v: v == 1))
-                   or (call_name(x.value.right) == "self._extractLength" and const_value_is(x.value.left, lambda v: v == 1)))
-              for x in walk_local(fpl))
-    ctx.check(okl, "netstring/expected-size", Q + "NetstringReceiver._processLength", "the expected payload size is not 'announced length + 1' (payload and comma)")
-    # dataReceived: errors close, incomplete waits
-    fd = ctx.func(B, "NetstringReceiver.dataReceived")
-    gd = ctx.cfg(fd)
-    qd = Q + "NetstringReceiver.dataReceived"
-    dparam = fd.args.args[1].arg
-    app = [n.id for n in gd.nodes if n.kind == "stmt" and gd.reachable(n.id) and _appends_param(n.ast, "_remainingData", dparam)]
-    cons = call_nodes(gd, "self._consumeData")
-    ctx.need(cons, "self._consumeData() in NetstringReceiver.dataReceived")
-    ctx.check(bool(app) and all(gd.must_precede(app, [c]) is None for c in cons), "netstring/buffer-order", qd,
-              "new data is not appended to _remainingData (old bytes first) before parsing")
-    for cnode in cons:
-        hs = [h for h in succ_of(gd, cnode, "exc") if gd.node(h).kind == "handler"]
-        perr = [h for h in hs if "NetstringParseError" in src(gd.node(h).ast.type)]
-        incs = [h for h in hs if "IncompleteNetstring" in src(gd.node(h).ast.type)]
-        hp = call_nodes(gd, "self._handleParseError")
-        ctx.check(bool(perr), "netstring/parse-error-closes", qd + " | handler", "NetstringParseError is not handled in dataReceived")
-        for h in perr:
-            w = gd.must_pass([h], hp)
-            ctx.check(bool(hp) and w is None, "netstring/parse-error-closes", qd + " | except NetstringParseError",
-                      "an illegal netstring does not lead to _handleParseError() (connection stays open)", witness=gd.describe(w))
-            back = gd.path([h], cons, strict=True, edge_ok=lambda a, b, l: l != "exc")
-            ctx.check(back is None, "netstring/parse-error-stops", qd + " | except NetstringParseError", "parsing goes on after a parse error", witness=gd.describe(back))
-        for h in incs:
-            ctx.check(not (set(gd.reach([h], edge_ok=lambda a, b, l: l != "exc")) & set(hp)) and gd.path([h], cons, strict=True, edge_ok=lambda a, b, l: l != "exc") is None,
-                      "netstring/incomplete-waits", qd + " | except IncompleteNetstring", "an incomplete netstring is treated as an error or spins instead of waiting for more data")
-        ctx.check(bool(incs), "netstring/incomplete-waits", qd + " | handler", "IncompleteNetstring is not handled in dataReceived")
-    fh = ctx.func(B, "NetstringReceiver._handleParseError")
-    ctx.check(any(call_name(c) == "self.transport.loseConnection" for c in walk_local(fh) if isinstance(c, ast.Call)), "netstring/parse-error-closes",
-              Q + "NetstringReceiver._handleParseError", "_handleParseError does not close the connection")
-    fpr = ctx.func(B, "NetstringReceiver._prepareForPayloadConsumption")
-    gpr = ctx.cfg(fpr)
-    need = [self_assigns(gpr, "_state", lambda v: src(v) == "self._PARSING_PAYLOAD"),
-            self_assigns(gpr, "_currentPayloadSize", lambda v: const_value_is(v, lambda x: x == 0 and x is not False)),
-            call_nodes(gpr, "self._payload.truncate")]
-    ctx.check(all(ns and gpr.must_pass([gpr.entry], ns) is None for ns in need), "netstring/payload-state-reset", Q + "NetstringReceiver._prepareForPayloadConsumption",
-              "before a new payload the state, the size counter and the payload buffer are not all reset (the previous message leaks into the next)")
-    # writer
-    ff = ctx.func(B, "_formatNetstring")
-    rf = [x for x in walk_local(ff) if isinstance(x, ast.Return) and x.value is not None]
-    ctx.need(len(rf) == 1, "single return in _formatNetstring")
-    pw = ff.args.args[0].arg
-    badw = []
-    for sample in (b"", b"abc", b"0123456789ab", b",:,"):
-        try:
-            v = peval(rf[0].value, {pw: sample})
-        except NotConst as e:
-            v = f"<not evaluable: {e}>"
-        if v != str(len(sample)).encode() + b":" + sample + b",":
-            badw.append((sample, v))
-    ctx.check(not badw, "netstring/writer-format", Q + "_formatNetstring", f"_formatNetstring does not produce '<decimal length>:<data>,': {badw[:2]}")
-    fs = ctx.func(B, "NetstringReceiver.sendString")
-    sp_ = fs.args.args[1].arg
-    ctx.check(any(call_name(c) == "self.transport.write" and c.args and src(c.args[0]) == f"_formatNetstring({sp_})" for c in walk_local(fs) if isinstance(c, ast.Call)),
-              "netstring/writer-format", Q + "NetstringReceiver.sendString", "sendString does not write _formatNetstring(string)")
+                ctx.check(bool(R & set(rz)) and g.exit not in R, "netstring/limit-boundary", c, "a netstring longer than MAX_LENGTH is accepted")
+        rets = [x for x in walk_local(f) if isinstance(x, ast.Return) and x.value is not None]
+        ctx.check(len(rets) == 1 and test_value(ast.Compare(left=rets[0].value, ops=[ast.Eq()], comparators=[ast.Constant(7)]), {"length": 7, p: b"7"}) is True
+                  if rets else False, "netstring/length-value", q, "_extractLength does not return the decimal value of the length field")
+        # digit-count pre-check can never reject a length <= MAX_LENGTH
+    with ctx.section("netstring digit pre-check"):
+        # ---- ns digit
+        fm = ctx.func(B, "NetstringReceiver._maxLengthSize")
+        rm = [x for x in walk_local(fm) if isinstance(x, ast.Return) and x.value is not None]
+        ctx.need(len(rm) == 1, "single return in _maxLengthSize")
+        fc = ctx.func(B, "NetstringReceiver._checkStringSize")
+        gc = ctx.cfg(fc)
+        pc = fc.args.args[1].arg
+        rzc = _raises(gc, "NetstringParseError")
+        bad = []
+        for mx in (1, 2, 9, 10, 11, 99, 100, 101, 999, 1000, 99999, 100000, 10 ** 9, 12345678):
+            try:
+                size = peval(rm[0].value, {"self.MAX_LENGTH": mx})
+            except NotConst as e:
+                bad.append((mx, f"not evaluable: {e}"))
+                continue
+            R = reach_under(gc, {f"len({pc})": len(str(mx)), "self._maxLengthSize()": size})
+            if R & set(rzc):
+                bad.append((mx, f"_maxLengthSize()={size} rejects a {len(str(mx))}-digit length"))
+        ctx.check(not bad, "netstring/digit-precheck", Q + "NetstringReceiver._checkStringSize",
+                  f"the digit-count pre-check refuses a length that is <= MAX_LENGTH: {bad[:3]}")
+        # _payloadComplete / _consumePayload / _extractPayload
+    with ctx.section("netstring _payloadComplete"):
+        # ---- ns payloadComplete
+        fp = ctx.func(B, "NetstringReceiver._payloadComplete")
+        rp = [x for x in walk_local(fp) if isinstance(x, ast.Return) and x.value is not None]
+        ctx.need(len(rp) == 1, "single return in _payloadComplete")
+        tbl = []
+        for r_, c_, e_, want in ((4, 3, 7, True), (3, 3, 7, False), (9, 3, 7, True), (0, 7, 7, True), (1, 0, 2, False)):
+            v = test_value(rp[0].value, {"len(self._remainingData)": r_, "self._currentPayloadSize": c_, "self._expectedPayloadSize": e_})
+            if v is not want:
+                tbl.append((r_, c_, e_, v))
+        ctx.check(not tbl, "netstring/payload-complete-boundary", Q + "NetstringReceiver._payloadComplete",
+                  f"_payloadComplete is not 'buffered + already consumed >= expected' (remaining, current, expected, result): {tbl[:2]}")
+    with ctx.section("netstring _extractPayload"):
+        # ---- ns extractPayload
+        fx = ctx.func(B, "NetstringReceiver._extractPayload")
+        gx = ctx.cfg(fx)
+        qx = Q + "NetstringReceiver._extractPayload"
+        wr = calls_with(gx, "self._payload.write")
+        ctx.need(wr, "self._payload.write in _extractPayload")
+        for complete in (True, False):
+            facts = {"self._payloadComplete()": complete, "self._expectedPayloadSize": 10, "self._currentPayloadSize": 3}
+            R = reach_under(gx, facts)
+            here = [(n, c) for n, c in wr if n in R]
+            c0 = qx + (" | <payload completes>" if complete else " | <payload still incomplete>")
+            ctx.check(len(here) == 1, "netstring/payload-split", c0, f"{len(here)} payload writes on this branch (exactly one)")
+            for n, call in here:
+                a = local_def(fx, call.args[0]) if call.args else None
+                rem_assign = [x for x in self_assigns(gx, "_remainingData") if x in R]
+                cur_assign = [x.id for x in gx.nodes if x.kind == "stmt" and x.id in R and isinstance(x.ast, (ast.Assign, ast.AugAssign))
+                              and src(x.ast.targets[0] if isinstance(x.ast, ast.Assign) else x.ast.target) == "self._currentPayloadSize"]
+                if complete:
+                    spx = slice_parts(a) if a is not None else None
+                    ok = bool(spx) and src(spx[0]) == "self._remainingData" and spx[1] is None and spx[2] is not None
+                    width = None
+                    if ok:
+                        try:
+                            width = peval(local_def(fx, spx[2]), facts)
+                        except NotConst:
+                            width = None
+                    ctx.check(ok and width == 7, "netstring/payload-split", ctx.construct(qx, call),
+                              "when the payload completes, the bytes appended are not exactly the missing 'expected - current' bytes "
+                              "(bytes of the next netstring are swallowed or payload bytes are left behind when the payload arrives in pieces)")
+                    ok2 = False
+                    for x in rem_assign:
+                        s2 = slice_parts(gx.node(x).ast.value)
+                        if s2 and src(s2[0]) == "self._remainingData" and s2[2] is None and s2[1] is not None and spx and src(s2[1]) == src(spx[2]):
+                            ok2 = True
+                    ctx.check(ok2, "netstring/payload-split", ctx.construct(qx, call) + " | rest", "the bytes after the payload are not kept as _remainingData")
+                    ok3 = any(isinstance(gx.node(x).ast, ast.Assign) and src(gx.node(x).ast.value) == "self._expectedPayloadSize" for x in cur_assign)
+                    ctx.check(ok3, "netstring/payload-split", ctx.construct(qx, call) + " | size", "_currentPayloadSize is not brought to the expected size")
+                else:
+                    ctx.check(a is not None and src(a) == "self._remainingData", "netstring/payload-split", ctx.construct(qx, call),
+                              "an incomplete payload segment is not appended whole")
+                    ok2 = any(const_value_is(gx.node(x).ast.value, lambda v: v == b"") for x in rem_assign)
+                    ok3 = any(isinstance(gx.node(x).ast, ast.AugAssign) and isinstance(gx.node(x).ast.op, ast.Add) and src(gx.node(x).ast.value) == "len(self._remainingData)"
+                              and g_before(gx, x, rem_assign) for x in cur_assign)
+                    ctx.check(ok2 and ok3, "netstring/payload-split", ctx.construct(qx, call) + " | bookkeeping",
+                              "after buffering an incomplete segment the size counter is not advanced by its length before _remainingData is emptied")
+    with ctx.section("netstring _consumePayload"):
+        # ---- ns consumePayload
+        fcp = ctx.func(B, "NetstringReceiver._consumePayload")
+        gcp = ctx.cfg(fcp)
+        qcp = Q + "NetstringReceiver._consumePayload"
+        ext = call_nodes(gcp, "self._extractPayload")
+        comma = call_nodes(gcp, "self._checkForTrailingComma")
+        proc = call_nodes(gcp, "self._processPayload")
+        inc = _raises(gcp, "IncompleteNetstring")
+        ctx.need(ext and proc, "_extractPayload / _processPayload calls in _consumePayload")
+        after = [s for e in ext for s in succ_of(gcp, e, None)]
+        facts = {"self._currentPayloadSize": 5, "self._expectedPayloadSize": 5}
+        w = must_pass_under(gcp, facts, proc, srcs=after)
+        ctx.check(w is None, "netstring/complete-message-delivered", qcp + " | <payload complete>",
+                  "a netstring whose last byte (the comma) has arrived is not delivered until more data comes", witness=gcp.describe(w))
+        st_reset = self_assigns(gcp, "_state", lambda v: src(v) == "self._PARSING_LENGTH")
+        w = must_pass_under(gcp, facts, st_reset, srcs=after)
+        ctx.check(bool(st_reset) and w is None, "netstring/state-reset", qcp + " | <payload complete>",
+                  "the parser does not return to the length state after a complete payload", witness=gcp.describe(w))
+        R = reach_under(gcp, {"self._currentPayloadSize": 4, "self._expectedPayloadSize": 5}, srcs=after)
+        ctx.check(not (R & set(proc)) and bool(R & set(inc)), "netstring/incomplete-message-waits", qcp + " | <one byte missing>",
+                  "a netstring is delivered (or rejected) before its last byte arrived")
+        for p_ in proc:
+            w = gcp.must_precede(comma, [p_])
+            ctx.check(bool(comma) and w is None, "netstring/comma-checked", ctx.construct(qcp, gcp.node(p_).ast),
+                      "the payload is delivered without checking the terminating comma", witness=gcp.describe(w))
+    with ctx.section("netstring comma and payload"):
+        # ---- ns comma
+        ftc = ctx.func(B, "NetstringReceiver._checkForTrailingComma")
+        gtc = ctx.cfg(ftc)
+        rzt = _raises(gtc, "NetstringParseError")
+        R1 = reach_under(gtc, {"self._payload.getvalue()": b"ab,"})
+        R2 = reach_under(gtc, {"self._payload.getvalue()": b"abc"})
+        ctx.check(not (R1 & set(rzt)) and bool(R2 & set(rzt)) and gtc.exit not in R2, "netstring/comma-checked", Q + "NetstringReceiver._checkForTrailingComma",
+                  "the byte after the payload is not required to be exactly ','")
+        fpp = ctx.func(B, "NetstringReceiver._processPayload")
+        okp = False
+        for c in (x for x in walk_local(fpp) if isinstance(x, ast.Call) and call_name(x) == "self.stringReceived" and x.args):
+            try:
+                okp = peval(c.args[0], {"self._payload.getvalue()": b"ab,"}) == b"ab"
+            except NotConst:
+                okp = False
+        ctx.check(okp, "netstring/payload-without-comma", Q + "NetstringReceiver._processPayload", "stringReceived does not get the payload without the trailing comma")
+    with ctx.section("netstring _processLength"):
+        # ---- ns processLength
+        fpl = ctx.func(B, "NetstringReceiver._processLength")
+        okl = any(isinstance(x, ast.Assign) and src(x.targets[0]) == "self._expectedPayloadSize" and isinstance(x.value, ast.BinOp) and isinstance(x.value.op, ast.Add)
+                  and ((call_name(x.value.left) == "self._extractLength" and const_value_is(x.value.right, lambda v: v == 1))
+                       or (call_name(x.value.right) == "self._extractLength" and const_value_is(x.value.left, lambda v: v == 1)))
+                  for x in walk_local(fpl))
+        ctx.check(okl, "netstring/expected-size", Q + "NetstringReceiver._processLength", "the expected payload size is not 'announced length + 1' (payload and comma)")
+    with ctx.section("netstring dataReceived"):
+        # dataReceived: errors close, incomplete waits
+        fd = ctx.func(B, "NetstringReceiver.dataReceived")
+        gd = ctx.cfg(fd)
+        qd = Q + "NetstringReceiver.dataReceived"
+        dparam = fd.args.args[1].arg
+        app = [n.id for n in gd.nodes if n.kind == "stmt" and gd.reachable(n.id) and _appends_param(n.ast, "_remainingData", dparam)]
+        cons = call_nodes(gd, "self._consumeData")
+        ctx.need(cons, "self._consumeData() in NetstringReceiver.dataReceived")
+        ctx.check(bool(app) and all(gd.must_precede(app, [c]) is None for c in cons), "netstring/buffer-order", qd,
+                  "new data is not appended to _remainingData (old bytes first) before parsing")
+        for cnode in cons:
+            hs = [h for h in succ_of(gd, cnode, "exc") if gd.node(h).kind == "handler"]
+            perr = [h for h in hs if "NetstringParseError" in src(gd.node(h).ast.type)]
+            incs = [h for h in hs if "IncompleteNetstring" in src(gd.node(h).ast.type)]
+            hp = call_nodes(gd, "self._handleParseError")
+            ctx.check(bool(perr), "netstring/parse-error-closes", qd + " | handler", "NetstringParseError is not handled in dataReceived")
+            for h in perr:
+                w = gd.must_pass([h], hp)
+                ctx.check(bool(hp) and w is None, "netstring/parse-error-closes", qd + " | except NetstringParseError",
+                          "an illegal netstring does not lead to _handleParseError() (connection stays open)", witness=gd.describe(w))
+                back = gd.path([h], cons, strict=True, edge_ok=lambda a, b, l: l != "exc")
+                ctx.check(back is None, "netstring/parse-error-stops", qd + " | except NetstringParseError", "parsing goes on after a parse error", witness=gd.describe(back))
+            for h in incs:
+                ctx.check(not (set(gd.reach([h], edge_ok=lambda a, b, l: l != "exc")) & set(hp)) and gd.path([h], cons, strict=True, edge_ok=lambda a, b, l: l != "exc") is None,
+                          "netstring/incomplete-waits", qd + " | except IncompleteNetstring", "an incomplete netstring is treated as an error or spins instead of waiting for more data")
+            ctx.check(bool(incs), "netstring/incomplete-waits", qd + " | handler", "IncompleteNetstring is not handled in dataReceived")
+        fh = ctx.func(B, "NetstringReceiver._handleParseError")
+        ctx.check(any(call_name(c) == "self.transport.loseConnection" for c in walk_local(fh) if isinstance(c, ast.Call)), "netstring/parse-error-closes",
+                  Q + "NetstringReceiver._handleParseError", "_handleParseError does not close the connection")
+    with ctx.section("netstring payload state reset"):
+        # ---- ns prepare
+        fpr = ctx.func(B, "NetstringReceiver._prepareForPayloadConsumption")
+        gpr = ctx.cfg(fpr)
+        need = [self_assigns(gpr, "_state", lambda v: src(v) == "self._PARSING_PAYLOAD"),
+                self_assigns(gpr, "_currentPayloadSize", lambda v: const_value_is(v, lambda x: x == 0 and x is not False)),
+                call_nodes(gpr, "self._payload.truncate")]
+        ctx.check(all(ns and gpr.must_pass([gpr.entry], ns) is None for ns in need), "netstring/payload-state-reset", Q + "NetstringReceiver._prepareForPayloadConsumption",
+                  "before a new payload the state, the size counter and the payload buffer are not all reset (the previous message leaks into the next)")
+    with ctx.section("netstring writer"):
+        # writer
+        ff = ctx.func(B, "_formatNetstring")
+        rf = [x for x in walk_local(ff) if isinstance(x, ast.Return) and x.value is not None]
+        ctx.need(len(rf) == 1, "single return in _formatNetstring")
+        pw = ff.args.args[0].arg
+        badw = []
+        for sample in (b"", b"abc", b"0123456789ab", b",:,"):
+            try:
+                v = peval(rf[0].value, {pw: sample})
+            except NotConst as e:
+                v = f"<not evaluable: {e}>"
+            if v != str(len(sample)).encode() + b":" + sample + b",":
+                badw.append((sample, v))
+        ctx.check(not badw, "netstring/writer-format", Q + "_formatNetstring", f"_formatNetstring does not produce '<decimal length>:<data>,': {badw[:2]}")
+        fs = ctx.func(B, "NetstringReceiver.sendString")
+        sp_ = fs.args.args[1].arg
+        ctx.check(any(call_name(c) == "self.transport.write" and c.args and src(c.args[0]) == f"_formatNetstring({sp_})" for c in walk_local(fs) if isinstance(c, ast.Call)),
+                  "netstring/writer-format", Q + "NetstringReceiver.sendString", "sendString does not write _formatNetstring(string)")
+
+
+# ---- segmentation invariance: dataReceived as a step function over a sequence of deliveries ----------------------------------------
+
+class _Transport(VMStub):
+    def __init__(self, ev):
+        self.ev = ev
+        self.disconnecting = False
+
+    def loseConnection(self):
+        self.ev.append(("close",))
+        self.disconnecting = True
+
+    def write(self, data):
+        pass
+
+    def writeSequence(self, seq):
+        pass
+
+    def pauseProducing(self):
+        pass
+
+    def resumeProducing(self):
+        pass
+
+    def stopProducing(self):
+        pass
+
+
+def _deliver(mod, cls_name, attrs, chunks):
+    """Interpret ``cls_name`` of protocols/basic.py on a sequence of deliveries; the object's attributes (whatever they are
+    called) are carried from one dataReceived call to the next.  Returns the normalised event trace."""
+    ev = []
+
+    def line_received(vm, o, line):
+        ev.append(("line", line))
+        if line == b"RAW":
+            vm.call_method(o, "setRawMode")
+        elif line == b"PAUSE":
+            vm.call_method(o, "pauseProducing")
+
+    def raw_received(vm, o, data):
+        if b"!" in data:
+            head, rest = data.split(b"!", 1)
+            ev.append(("raw", head))
+            return vm.call_method(o, "setLineMode", rest)
+        ev.append(("raw", data))
+
+    def exceeded(name):
+        def hook(vm, o, arg):
+            ev.append(("exceeded",))
+            return vm.call_method(o, name, arg, skip_hook=True)
+        return hook
+
+    vm = MiniVM(mod, hooks={"stringReceived": lambda vm, o, s_: ev.append(("string", s_)), "lineReceived": line_received,
+                            "rawDataReceived": raw_received, "lineLengthExceeded": exceeded("lineLengthExceeded"),
+                            "lengthLimitExceeded": exceeded("lengthLimitExceeded")})
+    o = vm.new(vm.cls(cls_name))
+    tr = _Transport(ev)
+    o.attrs["transport"] = tr
+    o.attrs["connected"] = 1
+    if vm.cls(cls_name).find("makeConnection"):
+        vm.call_method(o, "makeConnection", tr)
+        o.attrs["transport"] = tr
+    o.attrs.update(attrs)
+    for c in chunks:
+        if tr.disconnecting:
+            break                      # "up to the first close request"
+        vm.call_method(o, "dataReceived", c)
+        if o.attrs.get("paused"):     # the application resumes between deliveries
+            vm.call_method(o, "resumeProducing")
+    out = []
+    for e in ev:
+        if e[0] == "raw" and out and out[-1][0] == "raw":
+            out[-1] = ("raw", out[-1][1] + e[1])
+        elif e[0] == "raw" and not e[1]:
+            continue
+        else:
+            out.append(e)
+        if e[0] == "close":
+            break
+    return out
+
+
+def _ref_intn(width, maxlen):
+    def ref(stream):
+        out, i = [], 0
+        while len(stream) - i >= width:
+            n = int.from_bytes(stream[i:i + width], "big")
+            if n > maxlen:
+                return out + [("exceeded",), ("close",)]
+            if len(stream) - i - width < n:
+                break
+            out.append(("string", stream[i + width:i + width + n]))
+            i += width + n
+        return out
+    return ref
+
+
+def _ref_lines(maxlen, delim=b"\r\n"):
+    def ref(stream):
+        out = []
+        parts = stream.split(delim)
+        for ln in parts[:-1]:
+            if len(ln) > maxlen:
+                return out + [("exceeded",), ("close",)]
+            out.append(("line", ln))
+        if len(parts[-1]) >= maxlen + len(delim):
+            out += [("exceeded",), ("close",)]
+        return out
+    return ref
+
+
+def _ref_netstring(maxlen):
+    def ref(stream):
+        out, i = [], 0
+        while i < len(stream):
+            j = i
+            while j < len(stream) and stream[j:j + 1].isdigit():
+                j += 1
+            digits = stream[i:j]
+            if not digits or (len(digits) > 1 and digits[:1] == b"0") or (j < len(stream) and stream[j:j + 1] != b":"):
+                return out + [("close",)]
+            if int(digits) > maxlen:
+                return out + [("close",)]
+            if j >= len(stream):
+                break
+            n = int(digits)
+            if len(stream) < j + 1 + n + 1:
+                break
+            if stream[j + 1 + n:j + 2 + n] != b",":
+                return out + [("close",)]
+            out.append(("string", stream[j + 1:j + 1 + n]))
+            i = j + 2 + n
+        return out
+    return ref
+
+
+_SEG_CASES = [
+    # (rule prefix, label, class, instance attributes, stream, reference framing or None)
+    ("intn", "Int8 strings ab,'',xyz", "Int8StringReceiver", {}, b"\x02ab\x00\x03xyz", _ref_intn(1, 99999)),
+    ("intn", "Int16 strings ab,'',xyz", "Int16StringReceiver", {}, b"\x00\x02ab\x00\x00\x00\x03xyz", _ref_intn(2, 99999)),
+    ("intn", "Int32 strings ab,'',xyz", "Int32StringReceiver", {}, b"\x00\x00\x00\x02ab\x00\x00\x00\x00\x00\x00\x00\x03xyz", _ref_intn(4, 99999)),
+    ("intn", "Int16 strings abcd,e,fgh,''", "Int16StringReceiver", {}, b"\x00\x04abcd\x00\x01e\x00\x03fgh\x00\x00", _ref_intn(2, 99999)),
+    ("intn", "Int8 with an over-long string (MAX_LENGTH=5)", "Int8StringReceiver", {"MAX_LENGTH": 5}, b"\x02ab\x07toolong\x01z", _ref_intn(1, 5)),
+    ("line-only", "lines ab,cde,'',x (MAX_LENGTH=5)", "LineOnlyReceiver", {"MAX_LENGTH": 5}, b"ab\r\ncde\r\n\r\nx\r\n", _ref_lines(5)),
+    ("line-only", "line of exactly MAX_LENGTH=5 then more", "LineOnlyReceiver", {"MAX_LENGTH": 5}, b"abcde\r\nfg\r\n", _ref_lines(5)),
+    ("line", "lines ab,cde,'',x (MAX_LENGTH=5)", "LineReceiver", {"MAX_LENGTH": 5}, b"ab\r\ncde\r\n\r\nx\r\n", _ref_lines(5)),
+    ("line", "line of exactly MAX_LENGTH=5 then more", "LineReceiver", {"MAX_LENGTH": 5}, b"abcde\r\nfg\r\n", _ref_lines(5)),
+    ("line", "raw mode switch and setLineMode(extra)", "LineReceiver", {}, b"ab\r\nRAW\r\nxy!cd\r\ne\r\n", None),
+    ("line", "pause inside a delivery, resume afterwards", "LineReceiver", {}, b"a\r\nPAUSE\r\nbc\r\nd\r\n", None),
+    ("netstring", "netstrings ab,'',xyz", "NetstringReceiver", {}, b"2:ab,0:,3:xyz,", _ref_netstring(99999)),
+    ("netstring", "netstring of 12 bytes", "NetstringReceiver", {}, b"1:a,12:abcdefghijkl,", _ref_netstring(99999)),
+    ("netstring", "invalid netstring after a valid one", "NetstringReceiver", {}, b"2:ab,x3:abc,", _ref_netstring(99999)),
+    ("netstring", "over-long netstring (MAX_LENGTH=5)", "NetstringReceiver", {"MAX_LENGTH": 5}, b"2:ab,7:toolong,1:z,", _ref_netstring(5)),
+]
+
+
+def _splits(n, three_way):
+    for i in range(1, n):
+        yield (i,)
+    if three_way:
+        for i in range(1, n):
+            for j in range(i + 1, n):
+                yield (i, j)
+
+
+def _segmentation(ctx):
+    mod = ctx.mod(B)
+    total = 0
+    for prefix, label, cls_name, attrs, stream, ref in _SEG_CASES:
+        with ctx.section(f"segmentation {cls_name}: {label}"):
+            c = Q + f"{cls_name}.dataReceived | <{label}>"
+            try:
+                whole = _deliver(mod, cls_name, attrs, [stream])
+                if ref is not None:
+                    want = ref(stream)
+                    ctx.check(whole == want, prefix + "/reference-framing", c,
+                              f"delivered at once, the stream {stream!r} yields {whole!r}; the reference framing is {want!r}")
+                three = ctx.tier == "thorough" or len(stream) <= 14
+                bad = None
+                nruns = 0
+                for cuts in _splits(len(stream), three):
+                    pts = (0,) + cuts + (len(stream),)
+                    chunks = [stream[a:b] for a, b in zip(pts, pts[1:])]
+                    got = _deliver(mod, cls_name, attrs, chunks)
+                    nruns += 1
+                    if got != whole:
+                        bad = (chunks, got)
+                        break
+                total += nruns
+            except VMError as e:
+                raise AnalysisError(f"{cls_name}: construct outside the interpreter's subset: {e}")
+            except (VMRaise, _NativeRaise) as e:
+                ctx.violation(prefix + "/segmentation-invariant", c, f"interpreting {cls_name}.dataReceived on {stream!r} raises {e}")
+                continue
+            ctx.check(bad is None, prefix + "/segmentation-invariant", c,
+                      "the events delivered depend on how the byte stream is cut into dataReceived calls: "
+                      + (f"delivered as {bad[0]!r} -> {bad[1]!r}, delivered at once -> {whole!r}" if bad else ""),
+                      detail=f"{nruns} segmentations agree with whole-stream delivery")
+    ctx.extra["segmentations_evaluated"] = total
 
 
 def g_before(g, x, others):
@@ -669,10 +895,10 @@ def g_before(g, x, others):
 
 
 def check(ctx):
-    _line_only(ctx)
-    _line_receiver(ctx)
-    _intn(ctx)
-    _netstring(ctx)
+    for name, fn in (("LineOnlyReceiver", _line_only), ("LineReceiver", _line_receiver), ("IntNStringReceiver", _intn), ("NetstringReceiver", _netstring)):
+        with ctx.section(name):
+            fn(ctx)
+    _segmentation(ctx)
 
 
 _LO = "        if len(self._buffer) >= (self.MAX_LENGTH + len(self.delimiter)):\n            return self.lineLengthExceeded(self._buffer)\n"
